@@ -301,3 +301,81 @@ class CoapH(explore.Harness):
 
 
 HARNESSES = {"coap": CoapH}
+
+
+# ------------------------------------------------------------------------------------------------ pairing level
+PAIRING_SYMS = ["read", "write", "event", "replay-event", "endpoint-change", "port-change", "same-endpoint"]
+
+
+def case_coap_pairing(p):
+    """A real CoAPPairing (pair-verify, session, events) against the reference accessory with a spy on the session's cipher objects, over a
+    history that includes what reaches the pairing from OUTSIDE the session: mDNS updates with a changed address / port / nothing changed.
+    Oracle as for the session-level harness: no (key, nonce) encrypts twice, no genuine message is accepted twice, listeners see each event once."""
+    import aiohomekit.controller.coap.connection as conn_mod
+    from vt.env.coaprig import CoapRig
+    from vt.env.reconn import mk_description
+    from vt.ref import coapacc
+
+    log = aeadspy.SpyLog()
+    real = conn_mod.ChaCha20Poly1305
+    conn_mod.ChaCha20Poly1305 = lambda key: aeadspy.SpyCtx(log, key)
+    rig = CoapRig(seed=p.get("seed", 0))
+    out = []
+    try:
+        got = []
+        rig.pairing.dispatcher_connect(lambda ev: got.append(dict(ev)))
+        rig.run(rig.pairing.list_accessories_and_characteristics())
+        sent, n = [], 0
+        addr, port = "fd00::5", 5683
+
+        class R:
+            def __init__(self, payload):
+                self.payload = payload
+
+        for sym in p["history"]:
+            try:
+                if sym == "read":
+                    rig.run(rig.pairing.get_characteristics([(1, 9)]))
+                elif sym == "write":
+                    rig.run(rig.pairing.put_characteristics([(1, 9, True)]))
+                elif sym in ("event", "replay-event"):
+                    srv = [c for c in rig.contexts if getattr(c, "root", None) is not None]
+                    # events reach the controller through the server context of the session; once that is shut down nothing arrives any more
+                    res = srv[-1].root._resources.get(()) if srv and not srv[-1].shut and hasattr(srv[-1].root, "_resources") else None
+                    if res is None or rig.acc.session is None:
+                        continue
+                    if sym == "event":
+                        n += 1
+                        payload = rig.acc.event([(10, coapacc.pack_value(rig.acc.chars[10].format, n))])
+                        sent.append(payload)
+                    elif not sent:
+                        continue
+                    else:
+                        payload = sent[0]
+                    rig.run(res.render_put(R(payload)))
+                else:
+                    if sym == "endpoint-change":
+                        addr = "fd00::6" if addr == "fd00::5" else "fd00::5"
+                    elif sym == "port-change":
+                        port = 5684 if port == 5683 else 5683
+                    rig.pairing._async_description_update(mk_description([addr], port=port))
+                    rig.loop.run_until_idle()
+            except Exception as e:  # noqa: BLE001
+                out.append((f"coap-pairing:raises:{type(e).__name__}:{sym}", {"history": p["history"], "err": str(e)[:160]}))
+                break
+            r = log.nonce_reuse()
+            if r:
+                out.append(("coap-pairing:nonce-reused-under-one-key", {"history": p["history"], "at": sym, "nonce": r["nonce"]}))
+                break
+            acc = [d for _, _, d in log.accepted()]
+            if len(acc) != len(set(acc)):
+                out.append(("coap-pairing:genuine-message-accepted-twice", {"history": p["history"], "at": sym}))
+                break
+            vals = [v.get("value") for ev in got for k, v in ev.items() if k == (1, 10)]
+            if len(vals) != len(set(vals)):
+                out.append(("coap-pairing:event-delivered-twice", {"history": p["history"], "at": sym, "values": vals}))
+                break
+    finally:
+        conn_mod.ChaCha20Poly1305 = real
+        rig.close()
+    return out
